@@ -31,9 +31,9 @@ class Polyline:
         v.setflags(write=False)
         self.v = v
 
-        self.is_closed = is_closed
+        self.is_closed = bool(is_closed)
 
-        self.e = edges_for(num_v=num_v, is_closed=is_closed)
+        self.e = edges_for(num_v=num_v, is_closed=self.is_closed)
         self.e.setflags(write=False)
 
     @classmethod
